@@ -273,6 +273,32 @@ def check_fw(prop, tier, seed, plan, verdict_names):
                 res.violations.append(dict(source="rand seed=%d" % seed, id=sid, names=sorted(names),
                                            detail=[d for d in tv["diverged"] if d["id"] == sid][:1],
                                            actual=scenario_lines(trace, sid)))
+    # 4. composition: the frameworks embedded in the simulator (std::time::Instant, the simulator's
+    #    own event stream, single-event calls) against the same mechanism and observer
+    cp = p.get("compose")
+    if cp:
+        trace = os.path.join(wd, "simfw.ndjson")
+        pr = vlib.run_bin("sim_driver", ["--seed", seed, "--scenarios", cp["scenarios"], "--out",
+                                         os.path.join(wd, "sim_unused.ndjson"), "--fw-out", trace], timeout=3000)
+        if pr.returncode != 0:
+            raise ToolError("sim_driver failed: %s" % pr.stdout[-2000:])
+        s = json.loads(pr.stdout.strip().splitlines()[-1])
+        tv = vlib.trace_validate("FrameworkTrace", tv_cfg(), trace, wd, "tvcompose")
+        if tv["incomplete"]:
+            raise ToolError("trace validation did not finish: %s" % tv["incomplete"])
+        log("[%s] COMPOSE seed=%d: %d framework traces recorded inside %d simulations, %d calls, %d lines (%d explained by the mechanism) in %.1fs" % (
+            prop, seed, s["framework_traces"], s["written"], tv["calls"], tv["lines"], tv["explained"], tv["wall"]))
+        res.traces += s["framework_traces"]
+        res.evaluations += s["framework_traces"]
+        res.nontrivial += s["framework_traces"]
+        by_id = {}
+        for v in tv["verdicts"]:
+            by_id.setdefault(v["id"], set()).add(v["name"])
+        for sid, names in sorted(by_id.items()):
+            if names & verdict_names:
+                res.violations.append(dict(source="compose seed=%d" % seed, id=sid, names=sorted(names),
+                                           detail=[d for d in tv["diverged"] if d["id"] == sid][:1],
+                                           actual=scenario_lines(trace, sid)[:400]))
     return finish(res, plan)
 
 
